@@ -8,7 +8,16 @@ import tempfile
 _n = itertools.count(1)
 
 ALPHA = '''
+import gin
 CALLS = []
+@gin.configurable('custom_{pk}')
+def decorated(z=0):
+  return ('{pk}.alpha.decorated', z)
+class Outer:
+  @gin.configurable('nested_{pk}')
+  class Nested:
+    def __init__(self, n=0):
+      self.n = n
 def fa(x=0, y=0):
   CALLS.append(('fa', x, y))
   return ('{pk}.alpha.fa', x, y)
